@@ -69,8 +69,16 @@ Theorem C05_pending_hosted_command_is_quiet_and_host_subscribed : forall fuel x'
   EvictHost.OrdH H -> EvictHost.waker_lt w (S x') -> S x' < length (cmds H) -> poll_next (S fuel) (S x') w H = Some (PNPending, H') ->
   c_evs (gcmd (S x') H') = [] /\ c_eff (gcmd (S x') H') = [] /\
   (was_aborted (S x') H' = false -> c_ready (gcmd (S x') H') = [] /\ c_spawnq (gcmd (S x') H') = []) /\
-  (c_atomic (gcmd (S x') H') = Some w \/ Evict.woken_of w H') /\ EvictHost.OrdH H'.
+  (c_atomic (gcmd (S x') H') = Some w \/ EvictHost.wokenx w H') /\ EvictHost.OrdH H'.
 Proof. exact EvictHost.poll_next_pending_quiet_and_subscribed. Qed.
+(* ... for a command with any id, top-level ones included (EvictHost.wokenx: the waker's poll flag is set, or - for the
+   waker of an executor task - the task is in the executor's ready queue) *)
+Theorem C05_pending_command_is_quiet_and_host_subscribed_any : forall fuel x w H H',
+  EvictHost.OrdH H -> EvictHost.waker_lt w x -> x < length (cmds H) -> poll_next (S fuel) x w H = Some (PNPending, H') ->
+  c_evs (gcmd x H') = [] /\ c_eff (gcmd x H') = [] /\
+  (was_aborted x H' = false -> c_ready (gcmd x H') = [] /\ c_spawnq (gcmd x H') = []) /\
+  (c_atomic (gcmd x H') = Some w \/ EvictHost.wokenx w H') /\ EvictHost.OrdH H'.
+Proof. exact EvictHost.poll_next_pending_quiet_and_subscribed_any. Qed.
 
 (* The chain of hosts is followed to its end whatever the nesting depth: wakes start with fuel wfuel w = S (the waker's
    command id); under the order invariant the ids along a chain strictly decrease, so more fuel changes nothing.
